@@ -343,4 +343,41 @@ theorem apartF_span (I : Int) (f : List (Int × Int × Int)) (hp : f.Pairwise (A
       rw [e]
       omega
 
+/-- Executions whose observation interval `[lo, hi]` lies inside `[a, b]` were granted in `(a-1, b]`. -/
+theorem countWithin_le_countIn (tr : List (Int × Int × Int))
+    (hmem : ∀ p ∈ tr, p.1 ≤ p.2.1 ∧ p.2.1 ≤ p.2.2) (a b : Int) :
+    Spec.countWithin (tr.map fun p => (p.1, p.2.2)) a b ≤ Spec.countIn (tr.map (·.2.1)) (a - 1) (b - a + 1) := by
+  induction tr with
+  | nil => simp [Spec.countWithin, Spec.countIn]
+  | cons p tr ih =>
+    have hp := hmem p (by simp)
+    have ih' := ih (fun q hq => hmem q (by simp [hq]))
+    simp only [Spec.countWithin, Spec.countIn] at ih' ⊢
+    simp only [List.map_cons, List.filter_cons]
+    by_cases h1 : a ≤ p.1 ∧ p.2.2 ≤ b
+    · have h2 : a - 1 < p.2.1 ∧ p.2.1 ≤ a - 1 + (b - a + 1) := by omega
+      simp only [h1, h2, and_self, decide_true, if_true, List.length_cons]
+      omega
+    · simp only [h1, decide_false, Bool.false_eq_true, if_false]
+      split
+      · simp only [List.length_cons]; omega
+      · exact ih'
+
+/-- If the (unknown) grant times obey the (stretched) window bound, every interval observation of
+them is accepted by `boundOKIv`: a rejected observation refutes the bound whatever the grant times were. -/
+theorem boundOKIv_of_windows (I B S : Int) (tr : List (Int × Int × Int))
+    (hmem : ∀ p ∈ tr, p.1 ≤ p.2.1 ∧ p.2.1 ≤ p.2.2)
+    (h : ∀ t T : Int, 0 ≤ T → (Spec.countIn (tr.map (·.2.1)) t T : Int) ≤ B + ceilDiv (T + S) I) :
+    Spec.boundOKIv I B S (tr.map fun p => (p.1, p.2.2)) = true := by
+  simp only [Spec.boundOKIv, List.all_eq_true]
+  intro p _ q _
+  by_cases hpq : p.1 ≤ q.2
+  · simp only [hpq, if_true, decide_eq_true_eq]
+    have h1 := countWithin_le_countIn tr hmem p.1 q.2
+    have h2 := h (p.1 - 1) (q.2 - p.1 + 1) (by omega)
+    have : (Spec.countWithin (tr.map fun p => (p.1, p.2.2)) p.1 q.2 : Int)
+        ≤ (Spec.countIn (tr.map (·.2.1)) (p.1 - 1) (q.2 - p.1 + 1) : Int) := by exact_mod_cast h1
+    omega
+  · simp [hpq]
+
 end ShellOp.RateLimit
